@@ -73,6 +73,7 @@ type HarnessResult struct {
 	MaxDec      int
 	Samples     []string
 	XChecked    int
+	Rescued     int // assertion queries the first solver left unknown and the second solver decided
 	XDisagree   []string
 }
 
@@ -94,6 +95,9 @@ type Explorer struct {
 	in      *Interp
 	solver  *Solver
 	xsolver *Solver // second solver for cross-checking assertion verdicts (thorough tier)
+	rsolver *Solver // second solver asked when the first answers unknown on an assertion (started lazily)
+	rescueBin string
+	timeoutMs int
 	hr      *HarnessResult
 
 	// current path
@@ -261,6 +265,25 @@ func (ex *Explorer) Assert(id string, c *Term) {
 	hr.obl(id).Reached++
 	hr.mu.Unlock()
 	r, model, note := ex.check(tt.Not(c), true)
+	if r == Unknown && ex.rescueBin != "" {
+		if ex.rsolver == nil {
+			if rs, err := NewSolver(tt, ex.rescueBin, ex.timeoutMs); err == nil {
+				ex.rsolver = rs
+			} else {
+				ex.rescueBin = ""
+			}
+		}
+		if ex.rsolver != nil {
+			as := append(append([]*Term{}, ex.pc...), tt.Not(c))
+			r2, m2, n2 := ex.rsolver.Check(as, true)
+			if r2 != Unknown {
+				r, model, note = r2, m2, n2
+				hr.mu.Lock()
+				hr.Rescued++
+				hr.mu.Unlock()
+			}
+		}
+	}
 	if ex.xsolver != nil && r != Unknown {
 		as := append(append([]*Term{}, ex.pc...), tt.Not(c))
 		r2, _, _ := ex.xsolver.Check(as, false)
@@ -599,6 +622,7 @@ func (p *Pool) done() {
 
 type RunConfig struct {
 	XCheckBin    string
+	RescueBin    string
 	Workers      int
 	SolverBin    string
 	TimeoutMs    int
@@ -652,6 +676,9 @@ func Explore(prog *ssa.Program, harnesses []*ssa.Function, rc RunConfig) []*Harn
 					if ex.xsolver != nil {
 						ex.xsolver.Close()
 					}
+					if ex.rsolver != nil {
+						ex.rsolver.Close()
+					}
 				}
 			}()
 			for {
@@ -672,6 +699,7 @@ func Explore(prog *ssa.Program, harnesses []*ssa.Function, rc RunConfig) []*Harn
 							panic(err)
 						}
 						ex.solver = s
+						ex.rescueBin, ex.timeoutMs = rc.RescueBin, rc.TimeoutMs
 						if rc.XCheckBin != "" {
 							if xs, err := NewSolver(ex.in.tt, rc.XCheckBin, rc.TimeoutMs); err == nil {
 								ex.xsolver = xs
